@@ -43,6 +43,16 @@ Oracles
      equivalent all-canonical object (override > optimized > initial regardless of spelling), judged differentially and,
      for parallax without flipping with defocus/astigmatism, by the closed form (4); both spellings in ONE dictionary with
      equal values == canonical alone; for conflicting values the property states no order: the winner is only counted.
+ (9) rotation-angle boundary alphabet: exactly 0, -0.0, +-pi/2, +-pi, 3pi/2, 2pi, 3pi and pi(1+-1e-6), pi/2(1+-1e-6),
+     given at construction and as override_rotation_angle (radians are the only spelling the API has), judged by the
+     closed form (4) at that angle, by the exact symmetry of the detector grid (a rotation by n quarter turns == rotation
+     0 with every image re-assigned to the pixel at R(theta) k, every kernel), by equality modulo 2pi, by
+     constructor == override, and by continuity (theta vs theta(1+1e-6)) for obf / mf / parallax / icom; ssb keeps a
+     pure phase gamma/|gamma| and is not continuous in any parameter, so for ssb continuity is recorded, not judged;
+ (10) key-ORDER invariance: an aberration dictionary is a mapping. Each aberration set, in canonical and alias
+     spelling, in reversed order, with all angles first and with every angle directly before its magnitude, given at
+     construction, as override, or split over both (angles / magnitudes / halves), must equal the canonical order
+     (differentially for every kernel, and by the closed form for parallax).
 """
 from __future__ import annotations
 
@@ -59,7 +69,8 @@ LEVEL = "exploration"
 TECHNIQUE = (
     "exhaustive configuration lattice (scan shape x mask x sub-mask x aberrations x rotation x kernel+aliases x upsampling x filter) "
     "with the complete schedule dimension (every max_batch_size 1..num_bf and None) at every point; full delta basis of the stack for linearity; "
-    "complete spelling families for mask / index arguments and for aberration names x sources (constructor, optimized state, override)"
+    "complete spelling families for mask / index arguments and for aberration names x sources (constructor, optimized state, override); "
+    "rotation-angle boundary alphabet (exact multiples of 90 degrees and their 1e-6 neighbours) and key-order permutations of every aberration dictionary"
 )
 CLAIM = (
     "For every point of the stated lattice and every batch size 1..num_bf the reconstruction equals the one-batch result (within 3e-5 of its maximum, float32), "
@@ -70,7 +81,8 @@ CLAIM = (
     "reconstructions; every accepted spelling of a sub-mask (23 tensor / array / list / view / complement-by-arithmetic forms), of the batch "
     "size and upsampling factor and of the construction mask gives the result of the canonical spelling, and every combination of "
     "aberration spelling (canonical / alias) and source (constructor, optimized state, reconstruct override) gives the result of the "
-    "equivalent all-canonical object. Exhaustive lattice + complete schedule enumeration is the right level: the defects live in batch remainders, sub-mask "
+    "equivalent all-canonical object, whatever the key order of the dictionaries; at the exact rotation angles 0, +-pi/2, +-pi, 3pi/2, 2pi, 3pi "
+    "(and 1e-6 next to them) the parallax closed form, the quarter-turn symmetry of the detector grid, equality modulo 2pi and continuity hold. Exhaustive lattice + complete schedule enumeration is the right level: the defects live in batch remainders, sub-mask "
     "index mapping and two-pass normalisation, all finite dimensions; linearity closes the data quantifier for the smallest shape."
 )
 NOTE = (
@@ -79,7 +91,8 @@ NOTE = (
     "output maximum. Stack contents are seeded (dyadic values so that 2x-3y is exact in float32). Scan shapes beyond 8x6, masks beyond 21 "
     "pixels, aberration values off the alphabet and soft_edges=False are not explored. Oracle (6) goes beyond the literal statement. "
     "Spelling families: 0/1-valued masks only; the optimized state is reached through the public searches with a single candidate value; "
-    "'defocus' = -C10 is the one alias with a sign; for conflicting spellings in one dictionary the winner is counted in the coverage, not judged."
+    "'defocus' = -C10 is the one alias with a sign; for conflicting spellings in one dictionary the winner is counted in the coverage, not judged. "
+    "Continuity in the rotation angle is judged for obf / mf / parallax / icom with tolerance 5e-3 (true derivative effects reach 2.3e-4); ssb is exempt (pure-phase normalisation)."
 )
 RULE = (
     "Cartesian product of the alphabets in coverage.alphabet; inside each point every max_batch_size 1..num_bf(sub-mask) and None. An "
@@ -1109,7 +1122,7 @@ def rotation_point(t, env, kv, up, name, cache=None):
         pt = env.point(kv, up, "none", None, angle=name, source=source)
         del pt["rot"]
         case = dict(pt, kind="rotation")
-        cls = {"angle": name, "source": source, **kclass(kv)}
+        cls = {"angle": name, "kernel": kv[0]}  # the source (constructor / override) is in the case and the message
         got = get(name, theta, source)
         nz = bool(np.any(got != 0))
         t.case(key=["rotation", pt], nontrivial=nz, outcome=[round(float(np.abs(got).max()), 7)])
@@ -1123,7 +1136,7 @@ def rotation_point(t, env, kv, up, name, cache=None):
             t.stat("rotation_analytic_rel_err", e)
             t.extra["rotation_closed_form_points"] += 1
             if not e <= TOL_ANALYTIC:
-                t.fail({"relation": "parallax_analytic_at_rotation_boundary", "angle": name, "source": source}, case, f"rotation angle {name} ({theta!r} rad, {source}): parallax (no sign flipping) differs from the sum of images translated by +grad chi(R(theta) k_i)/2pi / W by {e:.3e} of max (tol {TOL_ANALYTIC}) at {pt}")
+                t.fail({"relation": "parallax_analytic_at_rotation_boundary", "angle": name}, case, f"rotation angle {name} ({theta!r} rad, {source}): parallax (no sign flipping) differs from the sum of images translated by +grad chi(R(theta) k_i)/2pi / W by {e:.3e} of max (tol {TOL_ANALYTIC}) at {pt}")
         # exact grid symmetry: a rotation by n quarter turns == rotation 0 with the images re-assigned to the rotated pixels
         if name in QUARTER_TURNS:
             n = QUARTER_TURNS[name]
@@ -1244,14 +1257,14 @@ def key_order_point(t, base, kv, up, setname, spelling, order, source):
     except ReconError as ex:
         t.fail({"relation": "reconstruct_raised", "exception": type(ex.__cause__).__name__, **kclass(kv)}, case, f"{ex} at {case}")
         return
-    cls = {"relation": "aberration_key_order_invariance", "order": order, "source": source, "spelling": spelling}
+    cls = {"relation": "aberration_key_order_invariance", "order": order, "source": source}  # spelling and kernel are in the case
     e = relerr(got, ref)
     t.case(key=["key_order", case], nontrivial=bool(np.any(ref != 0)), outcome=[round(float(np.abs(ref).max()), 7)])
     t.stat("key_order_rel_err", e)
     t.extra["key_order_combinations"] += 1
     what = f"constructor {dict(ctor)}" + (f" + override {dict(over)}" if over else "")
     if not e <= TOL_OVERRIDE:
-        t.fail(dict(cls, judge="differential"), case, f"{what}: result differs from the same values in canonical order at construction {dict(canon)} by {e:.3e} of max (tol {TOL_OVERRIDE}) at {case}")
+        t.fail(cls, case, f"{what}: result differs from the same values in canonical order at construction {dict(canon)} by {e:.3e} of max (tol {TOL_OVERRIDE}) at {case}")
     if tuple(kv) == ("prlx", False) and not (set(canon) - set(LOW_CONTEXT)):
         want = parallax_oracle(env.x, geometric_shifts(env.pix, canon, env.rot), env.W["full"], up)
         e2 = relerr(got, want)
@@ -1259,7 +1272,7 @@ def key_order_point(t, base, kv, up, setname, spelling, order, source):
         t.stat("key_order_analytic_rel_err", e2)
         t.extra["key_order_closed_form_points"] += 1
         if not e2 <= TOL_ANALYTIC:
-            t.fail(dict(cls, judge="closed_form"), case, f"{what}: parallax (no sign flipping) differs from the sum of images translated by grad chi/2pi for {dict(canon)} by {e2:.3e} of max (tol {TOL_ANALYTIC}) at {case}")
+            t.fail(cls, case, f"{what}: parallax (no sign flipping) differs from the sum of images translated by grad chi/2pi for {dict(canon)} by {e2:.3e} of max (tol {TOL_ANALYTIC}) at {case}")
 
 
 def w_key_order(item, seed=0):
